@@ -22,13 +22,23 @@
    * "Values that are equal hash equally": [C20_hash_respects_eq]: the acceptance predicate of the harness operation
      "hasheq" (x, y, same) - where `same` = 1 iff the word sequences the crate's Hash feeds to a recording Hasher for
      x and for y are identical - accepts exactly when (x == y -> same = 1).
-     NOT modelled: the Hasher itself (SipHash etc.) and HashSet/HashMap; that identical input streams hash identically
-     and that the collections find equal keys with equal hashes is std's contract, trusted. Nor is the converse
-     (unequal values hash differently) required.
+     [C20_hash_slice_respects_eq]: the same for Hash::hash_slice, harness operation "hashsliceeq" (model constructor
+     OHashSliceEq, arguments [n; x1..xn; y1..yn], output [same]): accepted iff it raises nothing and
+     (x1 == y1, ..., xn == yn as values -> same = 1), `same` = 1 iff hash_slice fed identical word sequences for the two
+     slices; [C20_hash_slice_domain]: defined exactly for 0 <= n with 2n patterns following.
+   * "so a value inserted in a HashSet or HashMap is found again under any equal key such as 1 and 1.0, or +0 and -0":
+     [C20_hashset]: the harness operation "hashset" (insert x into an empty HashSet, then report contains(&y), the same
+     for a HashMap key) is judged against the single outcome [b2z (x == y)], no flag: found iff the values are equal
+     ([C20_dispatch_ops]: the operator bits of harness op "ops" are judged against m_ops, see C03_dispatch too).
+     Examples [C20_ex_hashset]: 1 / 1.0 and +0 / -0 must be found, 1 / 2 must not.
+     NOT modelled: the Hasher itself (SipHash etc.) and the collections' internals; that identical input streams hash
+     identically and that the collections find exactly the keys that are == with equal hashes is std's contract, trusted.
+     The converse for the hash input (unequal values feed different words) is NOT required by hasheq / hashsliceeq; it
+     is implied for HashSet membership only through `contains` = false for unequal values.
    All theorems of this file are axiom-free except [C20_eq_numeric_real]. *)
 From Coq Require Import ZArith Reals Bool List.
 From Flocq Require Import Core.Core.
-From DV Require Import Base Bid BidProofs OpsArith OpsCmp CmpProofs.
+From DV Require Import Base Bid BidProofs OpsArith OpsCmp CmpProofs Judge Status DispatchProofs.
 Import ListNotations.
 Open Scope Z_scope.
 
@@ -109,6 +119,34 @@ Theorem C20_hash_respects_eq : forall x y same,
 Proof. exact hash_respects_eq. Qed.
 Print Assumptions C20_hash_respects_eq.
 
+(* ---------- the judge's clauses for the hash operations ---------- *)
+Theorem C20_dispatch_hasheq : forall md x y outs fl,
+  acc (expected OHashEq md [x; y]) outs fl = 1 <-> fl = 0 /\ exists same, outs = [same] /\ m_hasheq x y same = true.
+Proof. exact dispatch_hasheq. Qed.
+Print Assumptions C20_dispatch_hasheq.
+
+Theorem C20_dispatch_ops : forall md x y, expected OOps md [x; y] = Exact (m_ops x y).
+Proof. intros md x y. exact (proj2 (dispatch_cmp md x y 0)). Qed.
+Print Assumptions C20_dispatch_ops.
+
+Theorem C20_hashset : forall md x y, expected OHashSet md [x; y] = Exact [([b2z (m_eq (decode x) (decode y))], 0)].
+Proof. exact dispatch_hashset. Qed.
+Print Assumptions C20_hashset.
+
+Theorem C20_hash_slice_respects_eq : forall md xs ys outs fl, length xs = length ys ->
+  (acc (expected OHashSliceEq md (Z.of_nat (length xs) :: xs ++ ys)) outs fl = 1 <->
+   fl = 0 /\ exists same, outs = [same] /\
+     (Forall2 (fun x y => m_eq (decode x) (decode y) = true) xs ys -> same = 1)).
+Proof. exact hash_slice_respects_eq. Qed.
+Print Assumptions C20_hash_slice_respects_eq.
+
+Theorem C20_hash_slice_domain : forall md n l,
+  (hashslice_shape n l = true <-> 0 <= n /\ Z.of_nat (length l) = 2 * n) /\
+  (hashslice_shape n l = false -> expected OHashSliceEq md (n :: l) = Exact []) /\
+  expected OHashSliceEq md [] = Exact [].
+Proof. exact hash_slice_domain. Qed.
+Print Assumptions C20_hash_slice_domain.
+
 (* ---------- non-vacuity ---------- *)
 (* 1 == 1.0, +0 == -0, NaN == NaN (any kind, any payload), NaN != 1 *)
 Example C20_ex_eq :
@@ -135,4 +173,24 @@ Example C20_ex_chain :
   m_partial_cmp (decode (encode (Fin false 1 0))) (decode (encode (Fin false 20 (-1)))) = 1 /\
   m_partial_cmp (decode (encode (Fin false 20 (-1)))) (decode (encode (Fin false 2 0))) = 2 /\
   m_partial_cmp (decode (encode (Fin false 1 0))) (decode (encode (Fin false 2 0))) = 1.
+Proof. vm_compute. repeat split; reflexivity. Qed.
+(* HashSet: 1 found under 1.0, +0 under -0E+3, a NaN under any NaN; 1 not found under 2 *)
+Example C20_ex_hashset :
+  expected OHashSet RNE [encode (Fin false 1 0); encode (Fin false 10 (-1))] = Exact [([1], 0)] /\
+  expected OHashSet RNE [encode (Fin false 0 0); encode (Fin true 0 3)] = Exact [([1], 0)] /\
+  expected OHashSet RNE [encode (NaN false false 5); encode (NaN true true 0)] = Exact [([1], 0)] /\
+  expected OHashSet RNE [encode (Fin false 1 0); encode (Fin false 2 0)] = Exact [([0], 0)].
+Proof. vm_compute. repeat split; reflexivity. Qed.
+(* hash_slice on [1; +0] and [1.0; -0]: pairwise equal, so only same = 1 is accepted; [1; +0] and [1.0; 2]: anything;
+   no answer, two answers, a flag: rejected; a wrong count: nothing is accepted *)
+Example C20_ex_hash_slice :
+  let a := [encode (Fin false 1 0); encode (Fin false 0 0)] in
+  let b := [encode (Fin false 10 (-1)); encode (Fin true 0 0)] in
+  let c := [encode (Fin false 10 (-1)); encode (Fin false 2 0)] in
+  acc (expected OHashSliceEq RNE (2 :: a ++ b)) [1] 0 = 1 /\ acc (expected OHashSliceEq RNE (2 :: a ++ b)) [0] 0 = 0 /\
+  acc (expected OHashSliceEq RNE (2 :: a ++ c)) [0] 0 = 1 /\ acc (expected OHashSliceEq RNE (2 :: a ++ c)) [1] 0 = 1 /\
+  acc (expected OHashSliceEq RNE (2 :: a ++ b)) [] 0 = 0 /\ acc (expected OHashSliceEq RNE (2 :: a ++ b)) [1; 1] 0 = 0 /\
+  acc (expected OHashSliceEq RNE (2 :: a ++ b)) [1] F_INX = 0 /\
+  acc (expected OHashSliceEq RNE [0]) [1] 0 = 1 /\ acc (expected OHashSliceEq RNE [0]) [0] 0 = 0 /\
+  expected OHashSliceEq RNE (1 :: a ++ b) = Exact [] /\ expected OHashSliceEq RNE (-1 :: []) = Exact [].
 Proof. vm_compute. repeat split; reflexivity. Qed.
